@@ -4,4 +4,13 @@ func init() {
 	Properties["X-RX"] = &Property{ID: "X-RX", Level: "other", Run: func(c *Ctx, tier string) []*Result {
 		return []*Result{c.RuleRxDisjoint(false), c.RuleRxGrammar(), c.RuleRxGroups(), c.RuleRxRebuild()}
 	}}
+	Properties["X-FS"] = &Property{ID: "X-FS", Level: "other", Run: func(c *Ctx, tier string) []*Result {
+		return []*Result{c.RuleFsWrite(), c.RuleFsGuard([]string{"format", "renumber-tests"}), c.RuleFsSame([]string{"format", "renumber-tests"}), c.RuleFsTarget([]string{"format", "update", "renumber-tests", "update-copyright", "self-update"})}
+	}}
+	Properties["X-NUM"] = &Property{ID: "X-NUM", Level: "other", Run: func(c *Ctx, tier string) []*Result {
+		return []*Result{c.RuleNarrow(), c.RuleSiblingRuleId(), c.RuleSiblingLocator(), c.RuleCompareVerdict()}
+	}}
+	Properties["X-MAP"] = &Property{ID: "X-MAP", Level: "other", Run: func(c *Ctx, tier string) []*Result {
+		return []*Result{c.RuleMapOrder(), c.RuleDefFragment(), c.RuleNondetSrc([]string{"generate", "update", "compare", "format"})}
+	}}
 }
